@@ -250,34 +250,56 @@ def rwa_bookkeeping(cx, N, blocks):
 
 
 @harness("C02", "pure_dephasing",
-         quick=[dict(N=2, dtype="Lorentzian"), dict(N=2, dtype="Gaussian")],
-         thorough=[dict(N=n, dtype=d) for n in (2, 3) for d in ("Lorentzian", "Gaussian")],
+         quick=[dict(N=2, dtype="Lorentzian"), dict(N=2, dtype="Gaussian"), dict(N=2, dtype="Lorentzian", Nref=2),
+                dict(N=2, dtype="Gaussian", Nref=2, form="operators")],
+         thorough=[dict(N=n, dtype=d, Nref=r, form=f) for n in (2, 3) for d in ("Lorentzian", "Gaussian")
+                   for r in (1, 2) for f in ("tensor", "operators") if not (n == 3 and r == 2)] +
+                  [dict(N=2, dtype=d, Nref=3, Nt=3) for d in ("Lorentzian", "Gaussian")],
          functions=[F_P + ":ReducedDensityMatrixPropagator._BOOT_DEPH",
                     F_P + ":ReducedDensityMatrixPropagator._APPLY_DEPH",
-                    F_P + ":ReducedDensityMatrixPropagator.__propagate_short_exp_with_relaxation"],
-         bound="N<=3, 2 stored times, order 2; dephasing-rate matrix symmetric with zero diagonal (documented form), "
-               "tensor arbitrary with the C01 identities; exp uninterpreted",
+                    F_P + ":ReducedDensityMatrixPropagator.__propagate_short_exp_with_relaxation",
+                    F_P + ":ReducedDensityMatrixPropagator.__propagate_short_exp_with_rel_operators"],
+         bound="N<=3, 2 (3) stored times, order 2, refinement 1-3; dephasing-rate matrix symmetric with zero diagonal "
+               "(documented form), generator an arbitrary tensor with the C01 identities or a Lindblad form in operator "
+               "representation; exp uninterpreted: every stored state equals the alternation of one Taylor sub-step "
+               "and the element-wise dephasing factor of THAT sub-step - exp(-gamma dt_sub) (Lorentzian), "
+               "exp(-gamma (t_{k+1}^2 - t_k^2)/2) written as exp(-gamma dt_sub^2/2) exp(-gamma dt_sub t_k) (Gaussian)",
          out="values of exp")
-def pure_dephasing(cx, N, dtype):
+def pure_dephasing(cx, N, dtype, Nref=1, form="tensor", Nt=2):
     import quantarhei as qr
     from quantarhei.qm import ReducedDensityMatrixPropagator
     from quantarhei.qm.liouvillespace.puredephasing import PureDephasing
-    ham, time, RT, H, gen, extra = make_system(cx, N, 2, "tensor")
+    ham, time, RT, H, gen, extra = make_system(cx, N, Nt, "tensor" if form == "tensor" else "lindblad_op")
     rhoi, rho0 = initial_state(cx, N)
     with cx.concrete():
         pd = PureDephasing(drates=numpy.zeros((N, N)), dtype=dtype)
-    pd.data = cx.real_symmetric("gam", N, zero_diag=True)
+    gam = cx.real_symmetric("gam", N, zero_diag=True)
+    pd.data = gam.copy()
     prop = ReducedDensityMatrixPropagator(time, ham, RTensor=RT, PDeph=pd)
     dt = cx.real("dt", 0.01, 0.2)
     prop.Odt = dt
     prop.dt = dt
-    pr = prop.propagate(rhoi, method="short-exp-2")
-    d1 = pr.data[1]
-    cx.prove_eq("trace", numpy.trace(d1), 1)
-    cx.prove_eq("hermitian", d1, numpy.conj(d1.T))
-    ref = taylor(gen, rho0, dt, 2)
-    for a in range(N):
-        cx.prove_eq("diagonal_untouched[%d]" % a, d1[a, a], ref[a, a])
+    pr = prop.propagate(rhoi, method="short-exp-2", Nref=Nref)
+    sub = dt / Nref
+    state = rho0
+    for i in range(1, Nt):
+        t_start = float(time.data[i - 1])
+        for jj in range(Nref):
+            state = taylor(gen, state, sub, 2)
+            if dtype == "Lorentzian":
+                fac = numpy.exp(-gam * sub)
+            else:
+                tt = t_start + jj * sub
+                fac = numpy.exp(-gam * (sub ** 2) / 2.0) * numpy.exp(-(gam * sub) * tt)
+            state = state * fac
+        d = pr.data[i]
+        cx.prove_eq("trace[%d]" % i, numpy.trace(d), 1)
+        cx.prove_eq("hermitian[%d]" % i, d, numpy.conj(d.T))
+        cx.prove_eq("dephased_substeps[%d]" % i, d, state, tol=1e-9)
+    ref = taylor(gen, rho0, sub, 2)
+    if Nref == 1:
+        for a in range(N):
+            cx.prove_eq("diagonal_untouched[%d]" % a, pr.data[1][a, a], ref[a, a])
 
 
 @harness("C02", "kernel_lemmas",
